@@ -274,7 +274,13 @@ def tie(ctx):
         if va[0] != vb[0]:
             violations.append({"why": f"major solutions differ between builds: {va[0][:2]} vs {vb[0][:2]}", "input": inp, "signature": "c13:major_differs"})
         elif va[1] != vb[1]:
-            violations.append({"why": f"minor solutions differ between builds: {va[1][:1]} vs {vb[1][:1]}", "input": inp, "signature": "c13:minor_differs"})
+            pending_minor = {"why": f"minor solutions differ between builds: {va[1][:1]} vs {vb[1][:1]}", "input": inp, "signature": "c13:minor_differs",
+                             "tied": [round(x[1], 3) for x in va[1]] == [round(x[1], 3) for x in vb[1]]}
+        else:
+            pending_minor = None
+        if va[0] != vb[0]:
+            pending_minor = None
+        iso_before = len(fam["minor_models_isomorphic"]["disagreements"]) + len(fam["major_models_isomorphic"]["disagreements"])
         if ra["msnap"] is not None and rb["msnap"] is not None:
             fam["major_models_isomorphic"]["cases"] += 1
             diffs = lp.compare(canon_major(genes[0], ra["msnap"]), canon_major(genes[1], rb["msnap"]))
@@ -297,6 +303,14 @@ def tie(ctx):
                         break
             if diffs:
                 fam["minor_models_isomorphic"]["disagreements"].append({"why": "minor models of the two builds are not renamings of each other: " + diffs[0], "input": inp})
+        if pending_minor:
+            iso_after = len(fam["minor_models_isomorphic"]["disagreements"]) + len(fam["major_models_isomorphic"]["disagreements"])
+            if pending_minor.pop("tied") and iso_after == iso_before:
+                # the two models are renamings of each other (checked above) and the reported scores are equal: both
+                # refinements are optima of both builds (`optimum_transport`); only the choice among them differs
+                pending_minor["signature"] = "c13:equal_score_refinements_chosen_by_build"
+                pending_minor["why"] = "EQUAL-SCORE " + pending_minor["why"]
+            violations.append(pending_minor)
         distinct.add(lib.canon_hash([gd, structure, planted, i]))
         if len(samples) < 3 and va[0]:
             samples.append({"db": gd.get("name", gd["kind"]), "strands": [g.strand for g in genes], "structure": structure, "planted": planted, "major": va[0][:2]})
